@@ -375,6 +375,23 @@ impl<'tx> TxInner<'tx> {
                 m.tx_id = self.meta.tx_id;
                 m.hash = m.hash_self();
 
+                // The slot we are about to overwrite may hold a torn meta page left behind by a
+                // crash. Wipe it first: otherwise a second crash in the middle of this write could
+                // combine words of that torn page with words of this one into the checksum-valid
+                // meta page of the lost commit, whose pages have been reused since.
+                let slot_intact = {
+                    let old = self.pages.page(meta_page_id);
+                    old.page_type == Page::TYPE_META
+                        && (old.meta().valid() || old.old_meta().valid())
+                };
+                if !slot_intact {
+                    let zeros = vec![0; self.db.inner.pagesize as usize];
+                    file.seek(SeekFrom::Start(self.db.inner.pagesize * meta_page_id))?;
+                    file.write_all(zeros.as_slice())?;
+                    file.flush()?;
+                    file.sync_all()?;
+                }
+
                 file.seek(SeekFrom::Start(self.db.inner.pagesize * meta_page_id))?;
                 file.write_all(buf.as_slice())?;
             }
